@@ -172,24 +172,24 @@ type HarnessRun struct {
 	Fixed map[string]uint64 // concrete mode: values for named inputs
 	Trace bool
 
-	mu         sync.Mutex
-	Paths      map[string]int // status -> count
-	NPaths     int
-	Uncertain  int
-	Asserts    map[string]*AssertCount
-	Reached    map[string]int
-	TagsSeen   map[string]int
-	Cands      map[string][]*Candidate // class -> examples (bounded)
-	CandCount  map[string]int
-	Samples    []*Candidate
+	mu            sync.Mutex
+	Paths         map[string]int // status -> count
+	NPaths        int
+	Uncertain     int
+	Asserts       map[string]*AssertCount
+	Reached       map[string]int
+	TagsSeen      map[string]int
+	Cands         map[string][]*Candidate // class -> examples (bounded)
+	CandCount     map[string]int
+	Samples       []*Candidate
 	UnsuppSamples []*Candidate
-	Unsupp     map[string]int
-	GlobalSt   map[string]int
-	Transitions int64
-	Steps      int64
-	Truncated  bool
-	Wall       time.Duration
-	sampleEvery int
+	Unsupp        map[string]int
+	GlobalSt      map[string]int
+	Transitions   int64
+	Steps         int64
+	Truncated     bool
+	Wall          time.Duration
+	sampleEvery   int
 }
 
 func (r *HarnessRun) allocLimit() int {
@@ -318,6 +318,8 @@ func (e *Engine) runPath(run *HarnessRun, item workItem) *PathResult {
 	e.steps = 0
 	e.maxSteps = run.MaxSteps
 	e.stack = e.stack[:0]
+	e.panics = e.panics[:0]
+	e.pools, e.wraps = nil, nil
 	e.sp = 0
 	e.cellSeq, e.goPhase, e.goBarrier = 0, 0, 0
 	for c := range e.syncSide {
